@@ -32,6 +32,9 @@ import (
 func ParseQuery(q string) (pq *proto.Query, err error) {
 	p := newParser(q)
 
+	// make sure the lexer goroutine has finished when we return, wherever parsing stopped.
+	defer p.lexer.drain()
+
 	defer p.recover(&err)
 
 	pq, err = p.parse()
@@ -350,6 +353,9 @@ func lex(input string) *lexer {
 }
 
 func (l *lexer) run() {
+	// closing the channel tells drain that the lexer is done.
+	defer close(l.items)
+
 	for l.state = lexText; l.state != nil; {
 		l.state = l.state(l)
 	}
@@ -468,6 +474,14 @@ func (l *lexer) nextItem() item {
 	item := <-l.items
 	l.lastPos = item.pos
 	return item
+}
+
+// drain discards all items the lexer still produces, until the lexer goroutine is done.
+// Without it, a parse that stops before the end of the input (any syntax error, for
+// example) would leave that goroutine blocked forever on sending its next item.
+func (l *lexer) drain() {
+	for range l.items {
+	}
 }
 
 func (l *lexer) backup() {
